@@ -526,7 +526,14 @@ func runSimCheck(id, tier string, seed uint64, p propInfo, scratch string, start
 			if err != nil {
 				setPhase("")
 				fmt.Fprintf(os.Stderr, "falcosim: the no-network-address phase failed: %v\n", firstLine(err.Error()))
-				return 2
+				if len(reported) == 0 {
+					return 2
+				}
+				// Trouble in this phase must not hide what the main phase has already
+				// found, confirmed and written out (a change that kills workers kills
+				// them here too): report that, and say that this phase is incomplete.
+				netnsCov["incomplete"] = firstLine(err.Error())
+				o = &Out{}
 			}
 			netnsCov["cases"] = o.Evaluations
 			for _, f := range o.Found {
